@@ -103,11 +103,13 @@ def gen_values(rng, n):
     if kind < 0.4:       # discount-factor like: decreasing from about 1
         v = rng.choice([1.0, rng.uniform(0.9, 1.1)])
         out = []
+        flat = rng.random() < 0.4      # segments with a zero forward rate: adjacent nodes carry bit-for-bit the same value
         for _ in range(n):
             out.append(v)
-            v *= math.exp(-rng.uniform(0.0, 0.2))
-        return "df-like", [max(x, 1.1e-3) for x in out]
-    if kind < 0.5:       # some equal neighbours
+            if not (flat and rng.random() < 0.35):
+                v *= math.exp(-rng.uniform(0.0, 0.2))
+        return ("df-like with flat segments" if flat else "df-like"), [max(x, 1.1e-3) for x in out]
+    if kind < 0.55:       # some equal neighbours
         base = [math.exp(rng.uniform(math.log(1e-3), math.log(1e3))) for _ in range(n)]
         for i in range(1, n):
             if rng.random() < 0.4:
